@@ -111,12 +111,48 @@ def is_note(text):
     return (t.startswith('(') and t.endswith(')')) or (t.startswith('<') and t.endswith('>'))
 
 
+class _Wild:
+    """A paragraph with inline markup: what "its text" is (the text before the first
+    child, or all text inside) is not claimed - it may contribute any one string or none."""
+    def __repr__(self):
+        return '<paragraph with inline markup: text not claimed>'
+
+
+WILD = _Wild()
+
+
 def ref_script(story):
     out = []
     for c in story:
-        if c.tag == 'p' and c.text and c.text.strip() and not is_note(c.text):
+        if c.tag != 'p':
+            continue
+        if len(c):
+            out.append(WILD)
+        elif c.text and c.text.strip() and not is_note(c.text):
             out.append(c.text.strip())
     return out
+
+
+def script_matches(got, want):
+    if not isinstance(got, list) or not all(isinstance(g, str) for g in got):
+        return False
+    if not any(w is WILD for w in want):
+        return got == want
+    # each WILD stands for zero or one arbitrary line
+    reach = {0}
+    for w in want:
+        nxt = set()
+        for i in reach:
+            if w is WILD:
+                nxt.add(i)
+                if i < len(got):
+                    nxt.add(i + 1)
+            elif i < len(got) and got[i] == w:
+                nxt.add(i + 1)
+        reach = nxt
+        if not reach:
+            return False
+    return len(got) in reach
 
 
 def ref_body(story):
@@ -124,7 +160,7 @@ def ref_body(story):
     out = []
     for c in story:
         if c.tag == 'p':
-            out.append(('p', c.text if c.text is not None else ''))
+            out.append(('p', WILD if len(c) else (c.text if c.text is not None else '')))
         elif c.tag == 'item':
             out.append(('item', c))
     return out
@@ -155,7 +191,7 @@ def body_matches(got, want):
         return False
     for g, (k, w) in zip(got, want):
         if k == 'p':
-            if not isinstance(g, str) or g != w:
+            if not isinstance(g, str) or (w is not WILD and g != w):
                 return False
         else:
             if getattr(g, 'xml', None) is not w:
@@ -213,7 +249,7 @@ def story_script_ok(self, result):
     if any(len(c) for c in self.xml if c.tag == 'p'):
         return True          # inline child elements in paragraphs: outside the claim
     want = ref_script(self.xml)
-    return _rec('Story', 'script', result == want, result, want, prop='C17')
+    return _rec('Story', 'script', script_matches(result, want), result, want, prop='C17')
 
 
 def story_body_ok(self, result):
@@ -346,7 +382,7 @@ def ro_script_ok(self, result):
             if any(len(c) for c in s if c.tag == 'p'):
                 return True
             want.extend(ref_script(s))
-    return _rec('RunningOrder', 'script', result == want, result, want, prop='C17')
+    return _rec('RunningOrder', 'script', script_matches(result, want), result, want, prop='C17')
 
 
 def ro_body_ok(self, result):
